@@ -14,12 +14,25 @@ static inline char *hstrdup(const char *s) { size_t l = strlen(s) + 1; char *d =
 static inline int hexval(char c) { return c >= '0' && c <= '9' ? c - '0' : c >= 'a' && c <= 'f' ? c - 'a' + 10 : c >= 'A' && c <= 'F' ? c - 'A' + 10 : -1; }
 /* returns an exact-size heap block (ASan red zones on both sides); *n receives the length.
  * For the empty string a 1-byte block is returned and *n = 0 (hmalloc(0) may alias). */
+/* environment knobs (C13): LWV_TRAIL = extra bytes (0xFF) allocated after every input buffer,
+ * LWV_PREFILL = byte the output objects are pre-filled with */
+extern size_t g_trail; extern int g_prefill;
+/* copy of the most recent input buffer: parsers take `const` inputs, INCHK aborts when one was modified
+ * (stated bytes or the trailing environment bytes) */
+extern unsigned char *g_in_ptr, *g_in_copy; extern size_t g_in_len;
+static inline void in_register(unsigned char *b, size_t tot) {
+    if (g_in_copy) __real_free(g_in_copy);
+    g_in_copy = __real_malloc(tot ? tot : 1); memcpy(g_in_copy, b, tot); g_in_ptr = b; g_in_len = tot;
+}
+#define INCHK(buf) do { if ((buf) == g_in_ptr && memcmp((buf), g_in_copy, g_in_len)) { fflush(stdout); fprintf(stderr, "ERROR: AddressSanitizer: INPUT-MODIFIED\n"); abort(); } } while (0)
 static inline unsigned char *unhex(const char *s, size_t *n) {
-    if (!s || !strcmp(s, "-")) { *n = 0; return hmalloc(1); }
+    if (!s || !strcmp(s, "-")) { *n = 0; unsigned char *e = hmalloc(1 + g_trail); memset(e, 0xFF, 1 + g_trail); in_register(e, 1 + g_trail); return e; }
     size_t l = strlen(s) / 2;
-    unsigned char *b = hmalloc(l ? l : 1);
+    unsigned char *b = hmalloc((l ? l : 1) + g_trail);
+    if (g_trail) memset(b + l, 0xFF, g_trail);
     for (size_t i = 0; i < l; i++) b[i] = (unsigned char) (hexval(s[2 * i]) * 16 + hexval(s[2 * i + 1]));
     *n = l;
+    in_register(b, l + g_trail);
     return b;
 }
 static inline void phex(const unsigned char *p, size_t n) {
